@@ -42,6 +42,43 @@ EXTRA = [
 ]
 
 
+CH2 = [{"list_name": "c", "name": "x", "label": "X"}, {"list_name": "c", "name": "y", "label": "Y"}]
+# extra choices columns whose names look like fields of the survey element classes
+COLNAMES = ["parent", "extra_data", "type", "hint", "bind", "itemset", "sms_field", "sms_option", "_x", "name2", "label2", "value", "instance", "control",
+            "default", "query", "list_name2", "relevant", "required", "calculation", "constraint", "trigger", "parameters", "appearance", "action"]
+LEGACY = {
+    "phone-number-hint": {"survey": [{"type": "phone number", "name": "p", "label": "P", "hint": "H"}, {"type": "phone number", "name": "p2", "label": "P2"}]},
+    "osm+choices": {"survey": [{"type": "osm o", "name": "q", "label": "Q"}, {"type": "select_one c", "name": "s", "label": "S"}],
+                    "osm": [{"list_name": "o", "name": "building", "label": "B"}, {"list_name": "o", "name": "kind", "label": "K"}], "choices": CH2},
+    "osm-tags-choices": {"survey": [{"type": "osm o", "name": "q", "label": "Q"}],
+                         "osm": [{"list_name": "o", "name": "building", "label": "B"}, {"list_name": "building", "name": "yes", "label": "Yes"}]},
+    "range-decimal": {"survey": [{"type": "range", "name": "r", "label": "R", "parameters": "start=0.5 end=2.5 step=0.5"}, {"type": "note", "name": "n", "label": "N", "read_only": "no"},
+                                 {"type": "calculate", "name": "k", "calculation": "1", "bind::type": "int"}, {"type": "text", "name": "t", "label": "T", "bind::type": "int", "body::tag": "input"}]},
+    "entities-ns": {"survey": [{"type": "text", "name": "a", "label": "A", "save_to": "p"}], "entities": [{"list_name": "t", "label": "${a}"}],
+                    "settings": [{"namespaces": 'zz="http://zz.example"'}]},
+}
+KNOWN_LEGACY = {
+    "add-none-option": {"survey": [{"type": "select_multiple c", "name": "s", "label": "S"}], "choices": CH2, "settings": [{"add_none_option": "yes"}]},
+}
+
+
+def gen_legacy(tier):
+    for name, wb in LEGACY.items():
+        yield {"g": "form", "name": "legacy:" + name, "wb": wb}
+    for name, wb in KNOWN_LEGACY.items():
+        yield {"g": "form", "name": "legacy:" + name, "wb": wb, "tag": name}
+    cols = COLNAMES if tier == "thorough" else COLNAMES
+    for col in cols:
+        for filt in (False, True):
+            sel = {"type": "select_one c", "name": "s", "label": "S"}
+            if filt:
+                sel["choice_filter"] = f"{col} = 'v0'"
+            yield {"g": "form", "name": f"choice-col:{col}", "wb": {"survey": [sel], "choices": [dict(c, **{col: f"v{i}"}) for i, c in enumerate(CH2)]}}
+    for a, b in ((a, b) for i, a in enumerate(COLNAMES[:8]) for b in COLNAMES[i + 1:8]):
+        yield {"g": "form", "name": f"choice-cols:{a}+{b}", "wb": {"survey": [{"type": "select_one c", "name": "s", "label": "S"}],
+                                                                   "choices": [dict(c, **{a: f"a{i}", b: f"b{i}"}) for i, c in enumerate(CH2)]}}
+
+
 def gen_forms(tier):
     for name, wb in [(f"extra:{i}", w) for i, w in enumerate(EXTRA)] + [(f"rich:{i}", w) for i, w in enumerate(C13.RICH)] + C12.base_forms(tier):
         yield {"g": "form", "name": name, "wb": wb}
@@ -56,7 +93,7 @@ def gen_grid(tier):
             yield {"g": "grid", "cells": [list(c) for c in combo], "dl": dl}
 
 
-SPACE = GenSpace({"forms": gen_forms, "grid": gen_grid}, chunk=200)
+SPACE = GenSpace({"legacy": gen_legacy, "forms": gen_forms, "grid": gen_grid}, chunk=200)
 blocks = SPACE.blocks
 expand = SPACE.expand
 
@@ -97,12 +134,13 @@ def check_one(case):
     viol = []
     direct = out.xform
     tag = case["g"]
+    sfx = f":{case['tag']}" if case.get("tag") else ""
     # (1) workbook JSON -> text -> dict -> survey -> XForm
     try:
         s1 = create_survey_element_from_dict(json.loads(json.dumps(out.result._pyxform)))
         x1 = s1.to_xml(validate=False, pretty_print=False)
         if x1 != direct:
-            viol.append((f"workbook-json-reload:{lost_kind(direct, x1)}", first_diff(direct, x1)))
+            viol.append((f"workbook-json-reload:{lost_kind(direct, x1)}{sfx}", first_diff(direct, x1)))
     except Exception as e:  # noqa: BLE001
         viol.append((f"workbook-json-reload-exception:{type(e).__name__}", str(e)[:200]))
     # (2) survey.to_json_dict -> text -> survey -> to_json_dict / XForm
@@ -112,10 +150,10 @@ def check_one(case):
         s2 = create_survey_element_from_dict(json.loads(json.dumps(d1)))
         d2 = json.loads(json.dumps(s2.to_json_dict()))
         if d2 != d1:
-            viol.append(("survey-json-dump-not-stable", first_diff(json.dumps(d1, sort_keys=True), json.dumps(d2, sort_keys=True))))
+            viol.append((f"survey-json-dump-not-stable{sfx}", first_diff(json.dumps(d1, sort_keys=True), json.dumps(d2, sort_keys=True))))
         x2 = s2.to_xml(validate=False, pretty_print=False)
         if x2 != direct:
-            viol.append((f"survey-json-reload:{lost_kind(direct, x2)}", first_diff(direct, x2)))
+            viol.append((f"survey-json-reload:{lost_kind(direct, x2)}{sfx}", first_diff(direct, x2)))
     except Exception as e:  # noqa: BLE001
         viol.append((f"survey-json-reload-exception:{type(e).__name__}", str(e)[:200]))
     rich = any(k in json.dumps(wb) for k in ("relevant", "parameters", "::", "trigger", "default", "or_other", "entities", '"x"'))
